@@ -343,6 +343,7 @@ def canonicalise(tree: ast.AST) -> ast.AST:
     _fold_append_loops(tree)
     _inline_adjacent_temporaries(tree)
     _unroll_literal_loops(tree)
+    _fold_const_attr(tree)
     ast.fix_missing_locations(tree)
     return tree
 
@@ -543,8 +544,18 @@ def _unroll_literal_loops(tree: ast.AST) -> None:
                     ok = True
                     for e in lp.iter.elts:
                         vals = [e] if isinstance(lp.target, ast.Name) else (list(e.elts) if isinstance(e, (ast.Tuple, ast.List)) and len(e.elts) == len(tnames) else None)
-                        if vals is None or not all(all(isinstance(x, _PURE_NODES) for x in ast.walk(v)) for v in vals) or any(isinstance(v, ast.Starred) for v in vals):
+                        if vals is None or any(isinstance(v, ast.Starred) for v in vals):
                             ok = False
+                            break
+                        # an element that calls something is evaluated once per iteration: it may stand where its name is read, if that is at most once
+                        for tn, v in zip(tnames, vals):
+                            if not all(isinstance(x, _PURE_NODES) for x in ast.walk(v)):
+                                nreads = sum(1 for b in lp.body for x in ast.walk(b) if isinstance(x, ast.Name) and x.id == tn)
+                                in_loop = any(isinstance(o, (ast.For, ast.While, ast.ListComp, ast.GeneratorExp, ast.SetComp, ast.DictComp, ast.Lambda)) and
+                                              any(isinstance(x, ast.Name) and x.id == tn for x in ast.walk(o)) for b in lp.body for o in ast.walk(b))
+                                if nreads > 1 or in_loop or any(isinstance(x, (ast.Yield, ast.YieldFrom, ast.Await, ast.NamedExpr)) for x in ast.walk(v)):
+                                    ok = False
+                        if not ok:
                             break
                         rows.append(dict(zip(tnames, vals)))
                     if not ok:
@@ -564,6 +575,26 @@ def _unroll_literal_loops(tree: ast.AST) -> None:
                     changed = True
         if changed:
             ast.fix_missing_locations(fn)
+
+
+def _fold_const_attr(tree: ast.AST) -> None:
+    """`setattr(o, 'name', v)` as a statement is `o.name = v`; `getattr(o, 'name')` is `o.name`."""
+    class A(ast.NodeTransformer):
+        def visit_Expr(self, node):
+            self.generic_visit(node)
+            c = node.value
+            if isinstance(c, ast.Call) and isinstance(c.func, ast.Name) and c.func.id == 'setattr' and len(c.args) == 3 and not c.keywords \
+                    and isinstance(c.args[1], ast.Constant) and isinstance(c.args[1].value, str) and c.args[1].value.isidentifier():
+                return ast.copy_location(ast.Assign(targets=[ast.Attribute(value=c.args[0], attr=c.args[1].value, ctx=ast.Store())], value=c.args[2]), node)
+            return node
+
+        def visit_Call(self, node):
+            self.generic_visit(node)
+            if isinstance(node.func, ast.Name) and node.func.id == 'getattr' and len(node.args) == 2 and not node.keywords \
+                    and isinstance(node.args[1], ast.Constant) and isinstance(node.args[1].value, str) and node.args[1].value.isidentifier():
+                return ast.copy_location(ast.Attribute(value=node.args[0], attr=node.args[1].value, ctx=ast.Load()), node)
+            return node
+    A().visit(tree)
 
 
 def _split_tuple_assigns(tree: ast.AST) -> None:
